@@ -114,10 +114,12 @@ def pagetree_names_trusted(py) -> Tuple[bool, str, ast.AST]:
     fn = py.func("pagetree.get_page_tree")
     loop = None
     for n in ast.walk(fn):
-        if isinstance(n, ast.For) and isinstance(n.target, ast.Name) and n.target.id == "name":
+        if isinstance(n, ast.For) and isinstance(n.target, ast.Name) and any(
+                isinstance(b, ast.BinOp) and isinstance(b.op, ast.Div) and isinstance(b.right, ast.Name)
+                and b.right.id == n.target.id and ast.unparse(b.left) == "topdir" for st in n.body for b in ast.walk(st)):
             loop = n
     if loop is None:
-        raise AnalysisError("get_page_tree: `for name in ...` loop not found")
+        raise AnalysisError("get_page_tree: the loop that joins `topdir / <name>` was not found")
     it = loop.iter
     if not isinstance(it, ast.Name):
         return False, f"iterates `{ast.unparse(it)}`", loop
@@ -127,7 +129,27 @@ def pagetree_names_trusted(py) -> Tuple[bool, str, ast.AST]:
             sources.append(ast.unparse(n.value))
     listing = {t.id for n in ast.walk(fn) if isinstance(n, ast.Assign)
                and "os.listdir" in ast.unparse(n.value) for t in n.targets if isinstance(t, ast.Name)}
-    untrusted = [s for s in sources if not (s in listing or s.startswith("sorted(os.listdir"))]
+    # a list filtered by membership in the listing is as good as the listing:  [x for x in ... if x in filelist]
+    for n in ast.walk(fn):
+        if isinstance(n, ast.Assign) and isinstance(n.value, ast.ListComp) and len(n.value.generators) == 1:
+            g = n.value.generators[0]
+            if isinstance(n.value.elt, ast.Name) and isinstance(g.target, ast.Name) and n.value.elt.id == g.target.id and any(
+                    isinstance(c, ast.Compare) and len(c.ops) == 1 and isinstance(c.ops[0], ast.In)
+                    and isinstance(c.left, ast.Name) and c.left.id == g.target.id
+                    and isinstance(c.comparators[0], ast.Name) and c.comparators[0].id in listing for c in g.ifs):
+                listing |= {t.id for t in n.targets if isinstance(t, ast.Name)}
+
+    def trusted_expr(e: ast.AST) -> bool:
+        if isinstance(e, ast.Name):
+            return e.id in listing
+        if isinstance(e, ast.BinOp) and isinstance(e.op, ast.Add):
+            return trusted_expr(e.left) and trusted_expr(e.right)
+        if isinstance(e, ast.Call) and call_name(e) in ("list", "sorted", "OrderedDict.fromkeys", "dict.fromkeys") and e.args:
+            return all(trusted_expr(a) for a in e.args)
+        return ast.unparse(e).startswith("sorted(os.listdir")
+    src_nodes = [n.value for n in ast.walk(fn) if isinstance(n, ast.Assign)
+                 and any(isinstance(t, ast.Name) and t.id == it.id for t in n.targets)]
+    untrusted = [ast.unparse(v) for v in src_nodes if not trusted_expr(v)]
     if untrusted:
         return False, f"page file names also come from {untrusted} (page metadata `ordered_subpage`)", loop
     return True, "names come from os.listdir only", loop
